@@ -55,7 +55,10 @@ where
         let semaphore = Arc::clone(&self.semaphore);
         let semaphore_for_check = Arc::clone(&self.semaphore);
         let config = Arc::clone(&self.config);
-        let mut inner = self.inner.clone();
+        // `poll_ready` was driven on `self.inner`: that instance takes the call, a fresh
+        // clone is left behind for the next request (Tower readiness contract)
+        let clone = self.inner.clone();
+        let mut inner = std::mem::replace(&mut self.inner, clone);
         let start_time = Instant::now();
 
         #[cfg(feature = "metrics")]
